@@ -224,6 +224,9 @@ def cases(tier, seed=0):
         else:
             out.append(EriBlockSym(ls=list(ls), Ks=ones, Ms=ones, which=list(range(1, 8)), exps=_exps(sum(ls) + seed, ones)))
     out.append(EriBlockSym(ls=[1, 0, 0, 0], Ks=[2, 1, 1, 1], Ms=[1, 2, 1, 1], which=list(range(1, 8))))
+    # generalized contractions on every member (column axes must follow the shells through every orientation)
+    out.append(EriBlockSym(ls=[0, 0, 0, 0], Ks=ones, Ms=[2, 2, 1, 2], which=list(range(1, 8)), exps=_exps(2 + seed, ones)))
+    out.append(EriBlockSym(ls=[0, 1, 1, 0], Ks=ones, Ms=[2, 2, 2, 1], which=[1, 2, 4, 7], exps=_exps(3 + seed, ones)))
     # tight / diffuse pairing (exact arithmetic: orientation independence of the real-number result)
     out.append(EriBlockSym(ls=[0, 2, 0, 1], Ks=ones, Ms=ones, which=list(range(1, 8)), exps=[["100000"], ["1/50"], ["3/2"], ["3/10"]]))
     if tier == "thorough":
@@ -248,6 +251,7 @@ def cases(tier, seed=0):
         out.append(PublicPerm(module=mod, perm=[1, 0], ls=[1, 0], types="sc", Ks=[1, 1], Ms=[1, 2]))
         out.append(PublicPerm(module=mod, perm=[2, 0, 1], ls=[0, 1, 0], types="ccc", Ks=[1, 1, 1], Ms=[1, 1, 2]))
     out.append(PublicSym(module="eri", ls=[1, 0], types="sc", Ks=[1, 1], Ms=[1, 2]))
+    out.append(PublicSym(module="eri", ls=[0, 0], types="cc", Ks=[1, 1], Ms=[2, 2]))
     if tier == "thorough":
         four = dict(ls=[1, 0, 2, 1], types="cscs", Ks=[1, 1, 1, 1], Ms=[1, 2, 1, 1])
         for mod in ("overlap", "momentum", "eval"):
